@@ -1,9 +1,9 @@
 (* SLaneS_progress.v — no reachable state of the serial-lane-with-suspension model is stuck: every thread inside an API
    call or a drain has an enabled step, or waits for an enqueuer that is one step from publishing its link, or waits
    for the holder of the side lock, who has an enabled step (unless the process has crashed on the documented
-   nesting limit).  dispatch_suspend / dispatch_resume / dispatch_activate never wait for a drainer or a submitter
-   (only, on the side-counter path, for the side lock; the resume's hand-off waits like any drainer for an
-   enqueuer's link). *)
+   nesting limit).  dispatch_suspend / dispatch_resume CAN wait: on the side-counter path for the side lock
+   (PS_slock, PR_slock), and the hand-off of the resume that brings the count to zero waits like any drainer for an
+   enqueuer's link (PR_bchead); at every other program point of these calls a step is enabled. *)
 From Coq Require Import ZArith Bool List Lia.
 From Verif Require Import Word Bits Fields DqFields Conc Gen_consts Gen_dqstate Lane_fields SLaneS_fields SLaneS SLaneS_inv
   SLaneS_steps_a SLaneS_steps_b SLaneS_proofs.
@@ -220,12 +220,21 @@ Proof.
   - rewrite <- (gstep_frame rb s t s' u B N). exact Hu.
 Qed.
 
-(* every thread inside a call either can step, or waits for a thread that can: an enqueuer about to publish its
-   link, or the holder of the side lock; the only exception is a process that has crashed on the nesting limit
-   while holding the side lock *)
-Theorem no_stuck_thread rb ina s t :
+(* Every thread inside a call either can step, or waits for ONE NAMED thread:
+     - at PW_head / PW_pop / PR_bchead (a drainer, or the resumer doing the hand-off, in _dispatch_wait_for_enqueuer): the
+       submitter u that exchanged the tail for the unlinked entry and is at PA_link for it; u's link step is enabled;
+     - at PS_slock / PR_slock (the side-counter path of dispatch_suspend / dispatch_resume): the holder u of the side
+       lock; u's step is enabled, unless u has crashed on the documented nesting limit while holding it. *)
+Definition link_wait_pc (p : pc) : bool := match p with PW_head _ | PW_pop _ | PR_bchead _ => true | _ => false end.
+Definition side_wait_pc (p : pc) : bool := match p with PS_slock | PR_slock => true | _ => false end.
+
+Theorem no_stuck_thread_named rb ina s t :
   0 <= rb < 2 -> reach rb ina s -> pcs s t <> Idle -> crashed_pc (pcs s t) = false ->
-  enabled rb s t \/ (exists u, u <> t /\ enabled rb s u) \/ (exists u, crashed_pc (pcs s u) = true).
+  enabled rb s t \/
+  (link_wait_pc (pcs s t) = true /\
+   exists u e w q o, u <> t /\ In e (lst s) /\ e_linked e = false /\ pcs s u = PA_link (e_id e) w q o /\ enabled rb s u) \/
+  (side_wait_pc (pcs s t) = true /\
+   exists u, u <> t /\ sidelock s = Some u /\ (enabled rb s u \/ crashed_pc (pcs s u) = true)).
 Proof.
   intros Hrb R NI NCr. pose proof (active_valid rb ina s R t NI) as Vt.
   destruct (waits_pc (pcs s t)) eqn:Wt; [|left; apply (nonwaiting_enabled rb ina s t Hrb R Vt NI Wt NCr)].
@@ -233,41 +242,56 @@ Proof.
   assert (LinkEn : forall u i w q o, pcs s u = PA_link i w q o -> enabled rb s u).
   { intros u i w q o E. unfold enabled, gstep. rewrite E. eexists. reflexivity. }
   assert (Side : sidelock_pc (pcs s t) = false -> forall w, sidelock s = Some w ->
-                 (exists u, u <> t /\ enabled rb s u) \/ (exists u, crashed_pc (pcs s u) = true)).
+                 exists u, u <> t /\ sidelock s = Some u /\ (enabled rb s u \/ crashed_pc (pcs s u) = true)).
   { intros Ns w E. assert (Sw : sidelock_pc (pcs s w) = true) by (destruct (T w) as (_ & _ & _ & T4 & _); apply T4; exact E).
     assert (Nw : w <> t) by (intros ->; congruence).
-    destruct (crashed_pc (pcs s w)) eqn:Cw; [right; exists w; exact Cw|]. left. exists w. split; [exact Nw|].
+    exists w. split; [exact Nw|]. split; [exact E|].
+    destruct (crashed_pc (pcs s w)) eqn:Cw; [right; reflexivity|]. left.
     assert (NIw : pcs s w <> Idle) by (intros X; rewrite X in Sw; discriminate).
     apply (nonwaiting_enabled rb ina s w Hrb R (active_valid rb ina s R w NIw) NIw); [|exact Cw].
     destruct (pcs s w); cbn in Sw |- *; try discriminate; reflexivity. }
+  assert (Link : forall e, In e (lst s) -> e_linked e = false ->
+                 exists u e' w q o, u <> t /\ In e' (lst s) /\ e_linked e' = false /\ pcs s u = PA_link (e_id e') w q o /\ enabled rb s u).
+  { intros e Hin El. destruct (H2 e Hin El) as (u & w & q & o & Eu). exists u, e, w, q, o.
+    split; [intros ->; rewrite Eu in Wt; discriminate Wt|]. repeat split; auto. apply (LinkEn u _ _ _ _ Eu). }
   unfold enabled at 1. unfold gstep.
   destruct (pcs s t) eqn:Hpc; try discriminate Wt.
   - (* PW_head *)
     assert (L : lst s <> []) by (apply (H1 t); rewrite Hpc; reflexivity).
     destruct (lst s) as [|e l] eqn:E; [contradiction|].
     destruct (e_linked e) eqn:El; [left; eexists; reflexivity|].
-    right; left. destruct (H2 e) as (u & w & q & o & Eu); [rewrite E; left; reflexivity | exact El |].
-    exists u. split; [intros ->; congruence | apply (LinkEn u _ _ _ _ Eu)].
+    right; left. split; [reflexivity|]. apply (Link e); [left; reflexivity | exact El].
   - (* PW_pop *)
     assert (L : lst s <> []) by (apply (H1 t); rewrite Hpc; reflexivity).
     destruct (lst s) as [|e [|e2 l]] eqn:E; [contradiction | left; eexists; reflexivity |].
     destruct (e_linked e2) eqn:El; [left; eexists; reflexivity|].
-    right; left. destruct (H2 e2) as (u & w & q & o & Eu); [rewrite E; right; left; reflexivity | exact El |].
-    exists u. split; [intros ->; congruence | apply (LinkEn u _ _ _ _ Eu)].
+    right; left. split; [reflexivity|]. apply (Link e2); [right; left; reflexivity | exact El].
   - (* PS_slock *)
-    destruct (sidelock s) as [w|] eqn:E; [right; apply (Side eq_refl w eq_refl) | left; eexists; reflexivity].
+    destruct (sidelock s) as [w|] eqn:E; [right; right; split; [reflexivity | apply (Side eq_refl w eq_refl)] | left; eexists; reflexivity].
   - (* PR_slock *)
-    destruct (sidelock s) as [w|] eqn:E; [right; apply (Side eq_refl w eq_refl) | left; eexists; reflexivity].
+    destruct (sidelock s) as [w|] eqn:E; [right; right; split; [reflexivity | apply (Side eq_refl w eq_refl)] | left; eexists; reflexivity].
   - (* PR_bchead *)
     assert (L : lst s <> []) by (apply (H1 t); rewrite Hpc; reflexivity).
     destruct (lst s) as [|e l] eqn:E; [contradiction|].
     destruct (e_linked e) eqn:El; [left; eexists; reflexivity|].
-    right; left. destruct (H2 e) as (u & w & q & o & Eu); [rewrite E; left; reflexivity | exact El |].
-    exists u. split; [intros ->; congruence | apply (LinkEn u _ _ _ _ Eu)].
+    right; left. split; [reflexivity|]. apply (Link e); [left; reflexivity | exact El].
 Qed.
 
-(* dispatch_suspend / dispatch_resume / dispatch_activate never block on drainers or submitters: outside the side
-   lock acquisition and the hand-off's wait for an enqueuer's link every program point of these calls is enabled *)
+(* the weaker, anonymous form *)
+Corollary no_stuck_thread rb ina s t :
+  0 <= rb < 2 -> reach rb ina s -> pcs s t <> Idle -> crashed_pc (pcs s t) = false ->
+  enabled rb s t \/ (exists u, u <> t /\ enabled rb s u) \/ (exists u, crashed_pc (pcs s u) = true).
+Proof.
+  intros Hrb R NI NCr. destruct (no_stuck_thread_named rb ina s t Hrb R NI NCr) as [H|[[_ H]|[_ H]]]; [left; exact H| |].
+  - destruct H as (u & e & w & q & o & N & _ & _ & _ & En). right; left. exists u. split; assumption.
+  - destruct H as (u & N & _ & [En|Cr]); [right; left; exists u; split; assumption | right; right; exists u; exact Cr].
+Qed.
+
+(* The program points of dispatch_suspend / dispatch_resume / dispatch_activate OTHER THAN the three waiting points always
+   have an enabled step, whatever drainers and submitters do.  The calls CAN wait, exactly at: PS_slock / PR_slock (for the
+   side-lock holder, another suspender / resumer on the side-counter path) and PR_bchead (the hand-off of the resume that
+   brought the count to zero waits, like any drainer, for the enqueuer of the head item to publish its link);
+   no_stuck_thread_named says for whom and that that thread can step. *)
 Definition susp_api_pc (p : pc) : bool :=
   match p with
   | PS_rmw | PS_srmw | PS_sside | PS_sunlock | PS_sretry | PS_ret
@@ -276,7 +300,7 @@ Definition susp_api_pc (p : pc) : bool :=
   | _ => false
   end.
 
-Theorem suspend_resume_never_block rb ina s t :
+Theorem suspend_resume_enabled_outside_waits rb ina s t :
   0 <= rb < 2 -> reach rb ina s -> susp_api_pc (pcs s t) = true -> enabled rb s t.
 Proof.
   intros Hrb R H.
